@@ -41,7 +41,7 @@ namespace rkcommon {
     const double absVal = std::abs(val);
     char result[1000];
 
-    if (absVal >= 1e+15f)
+    if (absVal >= 1e+18f)
       osp_snprintf(result, 1000, "%.1f%c", val / 1e18f, 'E');
     else if (absVal >= 1e+15f)
       osp_snprintf(result, 1000, "%.1f%c", val / 1e15f, 'P');
@@ -73,7 +73,7 @@ namespace rkcommon {
     const double val = s;
     char result[1000];
 
-    if (val >= 1e+15f)
+    if (val >= 1e+18f)
       osp_snprintf(result, 1000, "%.1f%c", val / 1e18f, 'E');
     else if (val >= 1e+15f)
       osp_snprintf(result, 1000, "%.1f%c", val / 1e15f, 'P');
